@@ -161,32 +161,58 @@ theorem sumF_dirEdges_cross (c : Nat → P2 K) (ts : List Tri) :
   funext t
   exact sumF_triEdges_cross c t
 
+theorem refineG_sum {c : Nat → P2 K} {f : Edge → K} (hf : SegAdditive c f) {strict : Bool} {nv : Nat}
+    {es rs : List Edge} (h : refineG strict c nv es = some rs) : sumF f rs = sumF f es := by
+  unfold refineG at h
+  cases strict
+  · simp at h; rw [h]
+  · exact refineAll_sum hf (by simpa using h)
+
+/-- What the gluing part of `edgesOkG` establishes (for either strictness). -/
+theorem edgesOkG_spec {strict : Bool} {c : Nat → P2 K} {nv : Nat} {cw : Bool} {bnd : List Edge} {tris : List Tri}
+    (h : edgesOkG strict c nv cw bnd tris = true) :
+    (∀ t ∈ tris, t.1 < nv ∧ t.2.1 < nv ∧ t.2.2 < nv) ∧
+    (∀ t ∈ tris, if cw = true then triOrient c t ≤ 0 else 0 ≤ triOrient c t) ∧
+    ∃ B E, refineG strict c nv bnd = some B ∧ refineG strict c nv (dirEdges tris) = some E ∧ Glued B E := by
+  unfold edgesOkG at h
+  simp only [Bool.and_eq_true, List.all_eq_true, decide_eq_true_eq] at h
+  obtain ⟨⟨h1, h2⟩, h3⟩ := h
+  refine ⟨fun t ht => by simpa [and_assoc] using h1 t ht, ?_, ?_⟩
+  · intro t ht
+    have := h2 t ht
+    cases cw <;> cases strict <;> simp at this ⊢ <;> first | exact this | exact le_of_lt this
+  · split at h3
+    · rename_i B E hB hE
+      exact ⟨B, E, hB, hE, (gluedOk_iff B E).1 h3⟩
+    · cases h3
+
 /-- What `edgesOk` establishes. -/
 theorem edgesOk_spec {c : Nat → P2 K} {nv : Nat} {cw : Bool} {bnd : List Edge} {tris : List Tri}
     (h : edgesOk c nv cw bnd tris = true) :
     (∀ t ∈ tris, t.1 < nv ∧ t.2.1 < nv ∧ t.2.2 < nv) ∧
     (∀ t ∈ tris, if cw = true then triOrient c t < 0 else 0 < triOrient c t) ∧
     ∃ B E, refineAll c nv bnd = some B ∧ refineAll c nv (dirEdges tris) = some E ∧ Glued B E := by
-  unfold edgesOk at h
+  obtain ⟨g1, _, g3⟩ := edgesOkG_spec h
+  refine ⟨g1, ?_, by simpa [refineG] using g3⟩
+  unfold edgesOk edgesOkG at h
   simp only [Bool.and_eq_true, List.all_eq_true, decide_eq_true_eq] at h
-  obtain ⟨⟨h1, h2⟩, h3⟩ := h
-  refine ⟨fun t ht => by simpa [and_assoc] using h1 t ht, ?_, ?_⟩
-  · intro t ht
-    have := h2 t ht
-    cases cw <;> simpa using this
-  · split at h3
-    · rename_i B E hB hE
-      exact ⟨B, E, hB, hE, (gluedOk_iff B E).1 h3⟩
-    · cases h3
+  intro t ht
+  have := h.1.2 t ht
+  cases cw <;> simpa using this
 
 /-- Chain-level statement: for every antisymmetric, subdivision-additive edge functional the total
 over all triangle edges equals the total over the boundary. -/
+theorem edgesOkG_chain {strict : Bool} {c : Nat → P2 K} {nv : Nat} {cw : Bool} {bnd : List Edge} {tris : List Tri}
+    (h : edgesOkG strict c nv cw bnd tris = true) (f : Edge → K) (hanti : ∀ e, f (swap e) = -f e)
+    (hadd : SegAdditive c f) : sumF f (dirEdges tris) = sumF f bnd := by
+  obtain ⟨_, _, B, E, hB, hE, hg⟩ := edgesOkG_spec h
+  rw [← refineG_sum hadd hE, ← refineG_sum hadd hB]
+  exact glued_sum hg f hanti
+
 theorem edgesOk_chain {c : Nat → P2 K} {nv : Nat} {cw : Bool} {bnd : List Edge} {tris : List Tri}
     (h : edgesOk c nv cw bnd tris = true) (f : Edge → K) (hanti : ∀ e, f (swap e) = -f e)
-    (hadd : SegAdditive c f) : sumF f (dirEdges tris) = sumF f bnd := by
-  obtain ⟨_, _, B, E, hB, hE, hg⟩ := edgesOk_spec h
-  rw [← refineAll_sum hadd hE, ← refineAll_sum hadd hB]
-  exact glued_sum hg f hanti
+    (hadd : SegAdditive c f) : sumF f (dirEdges tris) = sumF f bnd :=
+  edgesOkG_chain h f hanti hadd
 
 /-- The area equation is implied by the edge conditions. -/
 theorem edgesOk_area {c : Nat → P2 K} {nv : Nat} {cw : Bool} {bnd : List Edge} {tris : List Tri}
